@@ -173,6 +173,9 @@ def _cmp_atom(left: ast.AST, op: ast.cmpop, right: ast.AST) -> tuple[Atom | None
             return None, not pol  # a < a is false; a <= a is true
         return Atom(("lt0", repr(d)), "lt0", (a, b)), pol
     ka, kb = pkey(left), pkey(right)
+    if isinstance(op, (ast.Is, ast.IsNot)) and (_const_like(left) or _const_like(right)):
+        # identity with an enum member / module constant is equality with it (members are singletons)
+        op = ast.Eq() if isinstance(op, ast.Is) else ast.NotEq()
     if isinstance(op, (ast.Is, ast.IsNot)):
         pol = isinstance(op, ast.Is)
         if ka == kb:
@@ -406,6 +409,7 @@ class Exec:
         self.extra_inline = set(extra_inline)
         self.inline_all = inline_all  # also execute the functions other checkers anchor by name
         self.inlined: dict[str, FuncInfo] = {}  # callees executed in line so far (qualified name -> function)
+        self.closures: dict[str, FuncInfo] = {}  # nested functions defined on the way (name -> function)
         self.bool_attrs = set(bool_attrs)  # attribute names holding booleans: writes are evaluated to True/False
         self._prepared: dict[int, ast.AST] = {}
 
@@ -444,6 +448,8 @@ class Exec:
         if isinstance(f, ast.Attribute) and isinstance(f.value, ast.Name) and f.value.id == "self" \
                 and self.fn.cls is not None and f.attr.startswith("_") and not f.attr.startswith("__"):
             target = self.prog.resolve_method(self.fn.cls, f.attr)
+        elif isinstance(f, ast.Name) and f.id in self.closures:
+            return self.closures[f.id]
         elif isinstance(f, ast.Name) and f.id.startswith("_") and f.id in self.fn.module.functions:
             target = self.fn.module.functions[f.id]
         if target is None:
@@ -493,7 +499,8 @@ class Exec:
             return None
         trial = st.fork()
         saved = trial.locals
-        trial.locals = dict(binds)
+        # a closure reads the enclosing function's variables (it may not rebind them: `nonlocal` is not modelled)
+        trial.locals = {**saved, **binds} if target.outer is not None else dict(binds)
         try:
             res = self._block(self.prepared(target).body, trial, mode, depth + 1)
         except Unsupported:
@@ -856,6 +863,10 @@ class Exec:
                                 done.append((s2, ex))
                     live = nxt
                 return done + [(x, None) for x in live]
+        if isinstance(s, (ast.FunctionDef, ast.AsyncFunctionDef)) and not s.decorator_list:
+            self.closures[s.name] = FuncInfo(s.name, self.fn.module, s, self.fn.cls, self.fn)
+            st.locals.pop(s.name, None)
+            return [(st, None)]
         if isinstance(s, ast.Match):
             return self._stmt(_match_as_if(s), st, mode, depth)
         if isinstance(s, (ast.For,)):
